@@ -12,12 +12,13 @@ def run(seed_dir, props=ALL):
         if p.returncode != 0:
             return {"error": "patch does not apply: " + (p.stdout + p.stderr)[:300]}
         env = dict(os.environ, VERIF_EVIDENCE_DIR=os.path.join(tmp, "evidence"))
-        out = {}
-        for pid in props:
+        def one(pid):
             r = subprocess.run([os.path.join(VERIF, "check"), pid, "--repo", tmp], capture_output=True, text=True, env=env)
             lines = [l for l in (r.stdout + r.stderr).splitlines() if l.strip().startswith("[") or "ANALYSIS-ERROR" in l]
-            out[pid] = {"rc": r.returncode, "lines": lines[:4]}
-        return out
+            return pid, {"rc": r.returncode, "lines": lines[:6]}
+        from concurrent.futures import ThreadPoolExecutor
+        with ThreadPoolExecutor(16) as ex:
+            return dict(ex.map(one, props))
     finally:
         shutil.rmtree(tmp, ignore_errors=True)
 
